@@ -63,7 +63,13 @@ func subscribed(ps *PubSub, name string, pattern bool, conn *net.Conn) bool {
 // Verif_C18_Subscribe: SUBSCRIBE / PSUBSCRIBE with two names (possibly equal, possibly already
 // subscribed) on top of an arbitrary earlier subscription: one confirmation per channel named, with
 // the running count, and the connection is subscribed to exactly those channels afterwards.
-func Verif_C18_Subscribe() {
+func Verif_C18_Subscribe() { verifSubscribe("C18") }
+
+// The same scenario is the pub/sub part of C12 (every complete command is answered with
+// well-formed frames, one confirmation per channel named).
+func Verif_C12_SubscribeReplies() { verifSubscribe("C12") }
+
+func verifSubscribe(tag string) {
 	ps := NewPubSub()
 	ctx := context.Background()
 	c1, f1 := newConn()
@@ -84,14 +90,14 @@ func Verif_C18_Subscribe() {
 	if pattern {
 		action = "psubscribe"
 	}
-	vr.Assert(string(f1.written) == confirmation(action, a, 1)+confirmation(action, b, 2), "C18.subscribe.one_confirmation_per_channel_with_running_count")
-	vr.Assert(f2.writes == 0, "C18.subscribe.other_connections_get_nothing")
-	vr.Assert(subscribed(ps, a, pattern, c1) && subscribed(ps, b, pattern, c1), "C18.subscribe.table_updated")
+	vr.Assert(string(f1.written) == confirmation(action, a, 1)+confirmation(action, b, 2), tag+".subscribe.one_confirmation_per_channel_with_running_count")
+	vr.Assert(f2.writes == 0, tag+".subscribe.other_connections_get_nothing")
+	vr.Assert(subscribed(ps, a, pattern, c1) && subscribed(ps, b, pattern, c1), tag+".subscribe.table_updated")
 	// no duplicate channel objects for one name
 	for i, x := range ps.channels {
 		for j, y := range ps.channels {
 			if i < j {
-				vr.Assert(!(x.name == y.name && (x.pattern != nil) == (y.pattern != nil)), "C18.subscribe.one_channel_object_per_name")
+				vr.Assert(!(x.name == y.name && (x.pattern != nil) == (y.pattern != nil)), tag+".subscribe.one_channel_object_per_name")
 			}
 		}
 	}
